@@ -1,0 +1,9 @@
+//go:build verif
+
+// This file is compiled only with the "verif" build tag. It adds a read-only
+// accessor used by the external verification harnesses.
+
+package compliance
+
+// VerifElectionID returns the current value of the suite's election ID counter.
+func VerifElectionID() uint64 { return electionID.Load() }
